@@ -874,6 +874,14 @@ func (x *c11Ctx) stmts(depth int, top bool) []*c11Expr {
 		// or swallows the statement that follows it: the population never leaves a body empty
 		out = append(out, x.opExpr(c11OpByName("Increment"), 1))
 	}
+	if r.Chance(1, 12) {
+		// firmware pads code with Noop statements: one to three of them in front of one of the statements
+		at := r.Intn(len(out))
+		for i, n := 0, r.Range(1, 3); i < n; i++ {
+			out = append(out[:at:at], append([]*c11Expr{{kind: c11EOp, op: pOpNoop, spec: &c11OpSpec{name: "Noop", op: pOpNoop}}}, out[at:]...)...)
+		}
+		x.g.feat["noop_before_a_statement"]++
+	}
 	if x.g.o.bigPkg && r.Chance(1, 10) {
 		// pad with Noops so that the enclosing package needs a longer length encoding
 		for i := 0; i < r.PickInt([]int{70, 200, 4100}); i++ {
